@@ -146,7 +146,7 @@ def _s1_jobs(tier, mk, quick_n5_max_edges, with_routes, n5_routes=True):
     # numeric strings: what the source front end and the repository's own YAML fixtures use as block names
     jobs.append(mk("S1-N4-all-entries-numeric-names", 4, None, exp=expected(4, None), prefix=""))
     # histories: the graph is written to a dictionary / YAML and read back between two stages
-    RELOADS = ["reload@1", "reload@2", "yreload@2", "alias@2"]
+    RELOADS = ["reload@1", "reload@2", "yreload@2", "alias@2", "reread"]
     BOTH = ["direct", "reload@2", "alias@2", "final:z"] if (with_routes and n5_routes) else None
     if os.environ.get("VERIF_PROBE"):
         jobs.append(mk("probe-counters", 5, 0, counters=[int(x) for x in os.environ["VERIF_PROBE"].split(",")]))
